@@ -14,7 +14,7 @@ CLAIMED = {
          "DESIGN.md section 5 C12"),
  "C13": ("exploration",
          "runtime oracle: independent reference hashes/partitioners + sequential-law monitor + porcupine linearizability check of recorded concurrent Balance histories",
-         "Every built-in balancer is executed on generated keys (all lengths 0..67, nil/empty, high-bit, long) x 33 partition counts and compared with independently written FNV-1a/CRC-32/murmur2 + Sarama/librdkafka/Java partitioner formulas; RoundRobin/LeastBytes are checked call by call against their sequential law and, under concurrency, by porcupine on recorded call/return histories. Held on the executions listed in the evidence; not a proof over all keys.",
+         "Every built-in balancer is executed on generated keys (all lengths 0..67, nil/empty, high-bit, long) x 33 partition counts and compared with independently written FNV-1a/CRC-32/murmur2 + Sarama/librdkafka/Java partitioner formulas; Hash and ReferenceHash are also driven through a constant-sum Hasher over boundary (0, 2^31-1, 2^31, 2^32-1 ...) and random 32-bit codes; RoundRobin/LeastBytes are checked call by call against their sequential law and, under concurrency, by porcupine on recorded call/return histories. Held on the executions listed in the evidence; not a proof over all keys.",
          "trusted: harness transcriptions of the reference clients' formulas; porcupine v1.3.0; partition lists are contiguous 0..n-1 as a Writer supplies them",
          "DESIGN.md section 5 C13"),
  "C01": ("exploration",
@@ -23,8 +23,8 @@ CLAIMED = {
          "trusted: fakenet's delivery accounting, the fake broker's atomic append, refcodec's strict record decoder; scenarios in which the client itself reported a deadline error are only judged for the clauses that do not depend on who won the race with the deadline",
          "DESIGN.md section 5 C01"),
  "C07": ("exploration",
-         "runtime monitor: per-partition log order vs per-goroutine submission sequence numbers embedded in message values, across retried batches; timer/size flush race widened by a verif hook",
-         "Writer scenarios biased to many small batches per partition, Async, failures of batch k while k+1 is queued, batch timer racing the size flush (hook writer.awaitBatch.timer); the oracle checks order inside every produce request and that every applied copy of an earlier batch precedes every copy of a later one.",
+         "runtime monitor: per-partition log order vs per-goroutine submission sequence numbers embedded in message values, across retried batches; timer/size flush race and the hand-over of closed batches to the partition queue widened by two verif hooks",
+         "Writer scenarios biased to many small batches per partition, Async, failures of batch k while k+1 is queued, batch timer racing the size flush (hooks writer.awaitBatch.timer and writer.batchQueue.Put); the oracle checks order inside every produce request and that every applied copy of an earlier batch precedes every copy of a later one.",
          "trusted: fake broker applies requests in arrival order; runs with client-side deadline errors are not judged",
          "DESIGN.md section 5 C07"),
  "C08": ("exploration",
@@ -54,7 +54,7 @@ CLAIMED = {
          "DESIGN.md section 5 C03"),
  "C15": ("exploration",
          "runtime monitor: timeline of Next / Start / function begin / cancellation / end recorded at the API boundary, checked against the fake coordinator's journal of JoinGroup / SyncGroup / Heartbeat / LeaveGroup (one logical clock, client write stamps from the wire tap)",
-         "A real kafka.ConsumerGroup runs application loops with functions that return at once, on cancellation, late after cancellation or after k ms, under coordinator error codes and dropped connections on every group API, forced rebalances, evictions, topic growth under the partition watcher, slow applications (Start on an already ended generation) and Close at random points; checked: Next never returns a generation while a function of the previous one runs, contexts are done before the member re-joins, heartbeat rate bounds, LeaveGroup before Close returns, ErrGroupClosed afterwards, join back-off lower bound.",
+         "A real kafka.ConsumerGroup runs application loops with functions that return at once, on cancellation, late after cancellation or after k ms, under coordinator error codes and dropped connections on every group API, forced rebalances, evictions, topic growth under the partition watcher, slow applications (Start on an already ended generation) and Close at random points; a second list closes the group while a formed generation is fetched, not yet fetched or being fetched, with 3 s / 4 s heartbeat and watch intervals, and takes a goroutine census 500 ms after Close returned; checked: Next never returns a generation while a function of the previous one runs, contexts are done before the member re-joins, heartbeat rate bounds, LeaveGroup before Close returns, ErrGroupClosed afterwards, join back-off lower bound.",
          "trusted: fake coordinator; heartbeat rate and back-off are bounds that load can only lengthen; functions started after the following Next call are outside the claim",
          "DESIGN.md section 5 C15"),
  "C04": ("exploration",
@@ -74,7 +74,7 @@ CLAIMED = {
          "DESIGN.md section 5 C11"),
  "C17": ("fault_enumeration",
          "runtime monitor with complete enumeration of cut positions: every byte offset of the sample response of every (path, operation/api, version) x ending (EOF, ECONNRESET; thorough: silence), through kafka.Conn and through Transport.RoundTrip; plus a fixed Reader and Writer scenario with the first fetch/produce response cut at every byte judged by the C02/C01/C07 oracles",
-         "The undisturbed response of every kafka.Conn operation (14 operations, every negotiable version) and of 23 APIs x every mutually supported version through the Transport is measured, then the call is repeated once per cut position and ending: it must return an error (fetch: a prefix of the complete records then an error) or exactly the undisturbed result, within its deadline, without panic; the Conn must be dead afterwards; the Transport must not reuse the cut connection and the same call must succeed on a new one.",
+         "The undisturbed response of every kafka.Conn operation (18 operations incl. fetches of logs whose last batch is gzip / snappy / lz4 / zstd compressed, every negotiable version) and of 23 APIs x every mutually supported version through the Transport is measured, then the call is repeated once per cut position and ending: it must return an error (fetch: a prefix of the complete records then an error) or exactly the undisturbed result, within its deadline, without panic; the Conn must be dead afterwards; the Transport must not reuse the cut connection and the same call must succeed on a new one.",
          "trusted: one sample response per (path, api, version) - other contents are sampled by C01/C02 with random cuts; the silence ending relies on the client's own deadline",
          "DESIGN.md section 5 C17"),
  "C18": ("exploration",
@@ -104,7 +104,7 @@ CLAIMED = {
          "DESIGN.md section 5 C19"),
  "C20": ("exploration",
          "runtime monitor in child processes (RLIMIT_AS 4 GiB, one decode at a time): process liveness, recovered panics, allocation accounting (runtime/metrics heap allocs, confirmed by an exact second decode) and outcome class for systematically mutated well-formed response frames through protocol.ReadResponse and through kafka.Client over the fake network",
-         "For every response type and version (reference-encoded with a field map where a schema exists, library-encoded otherwise) every length/count field - frame size, string/bytes/array lengths fixed and compact, tagged-field counts and sizes, record-set size, batch length, message size, wrapper value length, record count and varint lengths - is set to -1, -2, 0, len-1, len+1, remaining+1, 2^15-1, 2^31-1, -2^31 and for varints 2^31, 2^32, 2^63, 2^64-1 and an unterminated varint; the decode must end as an error or a message, without panic or process death, allocating at most 1 MiB + 64 x frame length. CRC-covered fields with a recomputed CRC are informational.",
+         "For every response type and version (reference-encoded with a field map where a schema exists, library-encoded otherwise) every length/count field - frame size, string/bytes/array lengths fixed and compact, tagged-field counts and sizes, record-set size, batch length, message size, wrapper value length, record count and varint lengths - is set (alone, and for the large values also together with a frame size announcing 2^30 bytes while only the original bytes arrive) to -1, -2, 0, len-1, len+1, remaining+1, 2^15-1, 2^31-1, -2^31 and for varints 2^31, 2^32, 2^63, 2^64-1 and an unterminated varint; the decode must end as an error or a message, without panic or process death, allocating at most 1 MiB + 64 x frame length. CRC-covered fields with a recomputed CRC are informational.",
          "trusted: allocation figures of the Go runtime in a single-threaded child; a first-run excess not reproduced by the immediate exact re-decode (cold pools) is not reported; decodes that do not return within 10 s are inconclusive",
          "DESIGN.md section 5 C20"),
 }
